@@ -73,7 +73,10 @@ def v4_token_value(tok):
     for p in parts:
         if not p or not p.isascii() or not p.isdigit():
             return None
-        v = int(p)
+        q = p.lstrip("0")            # (no int() on thousands of digits: the interpreter limits that)
+        if len(q) > 3:
+            return None
+        v = int(q or "0")
         if v > 255:
             return None
         vals.append(v)
